@@ -185,6 +185,17 @@ def gen_cases(rng, tier):
         cases.append(["conn%d" % j, "c16", "conn", "in" if incoming else "out", ";".join(g + tail)])
     for j, g in enumerate(("frame,close", "close", "clone,frame,close;adv:100", "garbage", "frame,garbage;adv:5", "frame;adv:31000;close", "select,close", "frame,frame,close;select")):
         cases.append(["connx%d" % j, "c16", "conn", "out", g + ";drop,drop,drop,drop;adv:70000"])
+    # server transactions whose peer never answers the answer: INVITE failures without ACK, non-INVITE finals, over unreliable and
+    # reliable transports, with and without retransmissions / legacy branches: gone after 64*T1
+    P06 = importlib.import_module("props.c06")
+    j = 0
+    for kind, code in (("inv", 486), ("inv", 603), ("ni", 200), ("ni", 404)):
+        for rel in (0, 1):
+            for t0 in (0, 137):
+                for br in ("", "legacy"):
+                    for evs in ([], [(t0 + 700, "R")] if rel == 0 else []):
+                        c = P06._case("srv%d" % j, kind, rel, code, t0, evs, branch=br)
+                        cases.append([c[0], "c16", "srv"] + c[2:]); j += 1
     # dialog-creating responses the UAC cannot use (no Contact): whatever was registered on the way must be gone again
     P13 = importlib.import_module("props.c13")
     for j, hist in enumerate((["180:a", "486:a"], ["183:a", "180:b", "404:-"], ["200:a"], ["180:a", "200:a"], ["180:a"], ["199:c", "603:c"])):
@@ -229,6 +240,9 @@ def normalize_impl(case, s):
         return "pending=%s/%s" % m.groups() if m else "pending=?"
     if case[2] == "tsx":
         return " ".join("P@%s:tsx%s" % p for p in _probes(s))
+    if case[2] == "srv":
+        m = re.search(r"tsx=(\d+)", s)
+        return "quiesced=tsx%s/tp0/dlg0/backlog0/cancel0" % (m.group(1) if m else "?")
     if case[2] == "conn":
         # the model's quiescent state: every table empty; the connection table is the one observed here
         last = [o for o in s.split(";") if o][-1:] or [""]
@@ -248,6 +262,15 @@ def oracle(case, impl):
             return ["no observation: " + impl[:200]]
         if m.group(1) != "0" or m.group(2) != "0":
             out.append("STUN transaction entry outlives the call (%s): pending=%s after the call returned, %s later" % (case[6], m.group(1), m.group(2)))
+        return out
+    if case[2] == "srv":
+        m = re.search(r"tsx=(\d+)", impl)
+        if not m:
+            return ["no observation: " + impl[:200]]
+        if m.group(1) != "0":
+            out.append("%s server transaction answered with %s over %s transport whose peer never reacted: %s transaction entr%s left %s ms later (64*T1 = 32000)" % (
+                "INVITE" if case[3] == "inv" else "non-INVITE", case[5], "a reliable" if case[4] == "1" else "an unreliable", m.group(1), "y" if m.group(1) == "1" else "ies",
+                int(case[8]) - int(case[6])))
         return out
     if case[2] == "conn":
         obs = [o for o in impl.split(";") if o]
@@ -298,6 +321,8 @@ def nontrivial(case, impl):
         return case[3]
     if case[2] == "conn":
         return case[3] + case[4]
+    if case[2] == "srv":
+        return "|".join(case[3:])
     return case[5]
 
 
